@@ -27,6 +27,7 @@ import Ymq.Lemmas.PolyDft
 import Ymq.Lemmas.PolyZMod
 import Ymq.Lemmas.PolyMiddle
 import Ymq.Lemmas.PolyTree
+import Ymq.Lemmas.PolyRootsEval
 
 namespace Ymq.C10
 open Ymq.PolySpec
@@ -541,7 +542,7 @@ precision schedule `half_up = ⌈len/2⌉`, the `1 + xC` shortcut exactly under 
 zero-padded `p[1..]`, then the low product and the negation. -/
 theorem inv_mod_xn_spec {α R : Type} [CommRing R] {o : Ops α} {φ : α → R} (h : HomE o φ) (c : Ctx)
     (f : Nat) (p : List α) (tmplen : Nat) (h1 : 1 ≤ p.length) (h2 : p.length ≤ 2 ^ f)
-    (h62 : p.length ≤ 2 ^ 62) (ht : 4 * p.length ≤ tmplen) (hfit : Fits c p.length)
+    (h62 : p.length ≤ 2 ^ 62) (ht : 4 * p.length ≤ tmplen) (hfit : Fits c (p.length - p.length / 2))
     (hinv : ∃ i, o.inv (p.getD 0 o.zero) = some i) :
     ∃ z, invModXn c o (f + 1) p tmplen = some z ∧ z.length = p.length ∧
       ∀ k, k < p.length → (poly (p.map φ) * poly (z.map φ)).coeff k = if k = 0 then 1 else 0 :=
@@ -552,7 +553,7 @@ theorem inv_mod_xn_spec {α R : Type} [CommRing R] {o : Ops α} {φ : α → R} 
 fix; `5·len` was one short for `len = 3`) always suffices. -/
 theorem div_mod_xn_spec {α R : Type} [CommRing R] {o : Ops α} {φ : α → R} (h : HomE o φ) (c : Ctx)
     (p q : List α) (hl : p.length = q.length) (h1 : 1 ≤ q.length) (h62 : q.length ≤ 2 ^ 62)
-    (hfit : Fits c q.length) (hinv : ∃ i, o.inv (q.getD 0 o.zero) = some i) :
+    (hfit : Fits c (q.length - q.length / 2)) (hinv : ∃ i, o.inv (q.getD 0 o.zero) = some i) :
     ∃ z, divModXnPub c o p q = some z ∧ z.length = q.length ∧
       ∀ k, k < q.length → (poly (q.map φ) * poly (z.map φ)).coeff k = (poly (p.map φ)).coeff k := by
   unfold divModXnPub
@@ -562,7 +563,7 @@ theorem div_mod_xn_spec {α R : Type} [CommRing R] {o : Ops α} {φ : α → R} 
 /-- the same for what the driver runs (`natOps n`, `n > 0`; `invMod` is proved sound): the answer of
 the model of `Poly::div_mod_xn` satisfies `Σ_{a ≤ k} q[a]·z[k-a] ≡ p[k] (mod n)` for every `k < len`. -/
 theorem div_mod_xn_zmod (n : Nat) (hn : 0 < n) (c : Ctx) (p q : List Nat) (hl : p.length = q.length)
-    (h1 : 1 ≤ q.length) (h62 : q.length ≤ 2 ^ 62) (hfit : Fits c q.length)
+    (h1 : 1 ≤ q.length) (h62 : q.length ≤ 2 ^ 62) (hfit : Fits c (q.length - q.length / 2))
     (hinv : ∃ i, Ymq.PolySpec.invMod (q.getD 0 0) n = some i) :
     ∃ z, divModXnPub c (natOps n) p q = some z ∧ z.length = q.length ∧
       ∀ k, k < q.length →
@@ -612,6 +613,69 @@ theorem from_roots_spec {α R : Type} [CommRing R] {o : Ops α} {φ : α → R} 
   fromRoots_spec h c roots h1 h62 hfit
 
 example : fromRoots (Ctx.new 1) (natOps 101) [1, 2, 3] = some [95, 11, 95, 1] := by decide
+
+/-! ## Multipoint evaluation: `_multi_eval`, `multi_eval`, `roots_eval` -/
+
+/-- **`Poly::_multi_eval(tree)` evaluates at the leaves of the tree** (Bernstein's scaled remainder
+tree as coded: reversed inverse of the top node by `_inv_mod_xn`, one `_middlemul` per node on the way
+down, the leaf rule). For any chain of layers with leaves `x + l_j`, top node of `n` low coefficients
+(`n ≤ 2^61`, `layers.length = log₂ n + 1`) and `1 ≤ |p| ≤ n + 1`: no panic site is reached and
+`vals[j] = p(-l_j)` for every leaf `j`. -/
+theorem multi_eval_tree_spec {α R : Type} [CommRing R] [Nontrivial R] {o : Ops α} {φ : α → R}
+    (h : HomE o φ) (c : Ctx) (p : List α) (layers : List (List (List α))) (top : List α)
+    (hch : Chain φ 1 layers) (htop : layers.getLast? = some [top])
+    (hlen : layers.length = top.length.log2 + 1) (hn1 : 1 ≤ top.length) (hn62 : top.length ≤ 2 ^ 61)
+    (hp1 : 1 ≤ p.length) (hp2 : p.length ≤ top.length + 1)
+    (hfit : Fits c (top.length / 2 + 1)) (hinv : ∃ i, o.inv o.one = some i) :
+    ∃ vals, multiEvalTree c o p layers = some vals ∧ vals.length = (layers.getD 0 []).length ∧
+      ∀ j, j < (layers.getD 0 []).length →
+        φ (vals.getD j o.zero) =
+          (poly (p.map φ)).eval (-(φ (((layers.getD 0 []).getD j []).getD 0 o.zero))) :=
+  multiEvalTree_spec h c p layers top hch htop hlen hn1 hn62 hp1 hp2 hfit hinv
+
+/-- **`Poly::multi_eval(a)[j] = p(a_j)`** for every point, in order, for `|p| ≥ 1`, `|a| ≥ 1`
+(sizes up to `2^60`), a large enough NTT context (if one is used at all) and `zn.inv(1)` succeeding:
+no panic site is reached (the `assert!` on the chunk sizes included). The model follows the code
+after commit 6f9ca4a: chunk count and length, `a.chunks(chunklen)`, padding of a chunk shorter than
+`deg p` with zero points, `_product_tree`, `_multi_eval`, `truncate`. -/
+theorem multi_eval_spec {α R : Type} [CommRing R] [Nontrivial R] {o : Ops α} {φ : α → R}
+    (h : HomE o φ) (c : Ctx) (p a : List α) (hp1 : 1 ≤ p.length) (ha1 : 1 ≤ a.length)
+    (h61 : max a.length (p.length - 1) ≤ 2 ^ 60)
+    (hfit : Fits c (2 * max a.length (p.length - 1))) (hinv : ∃ i, o.inv o.one = some i) :
+    ∃ v, multiEval c o p a = some v ∧ v.length = a.length ∧
+      ∀ j, j < a.length → φ (v.getD j o.zero) = (poly (p.map φ)).eval (φ (a.getD j o.zero)) :=
+  multiEval_spec h c p a hp1 ha1 h61 hfit hinv
+
+/-- what the driver runs: residues modulo a prime-or-not `n > 1`, ring context `PolyRing::new(zn, size)` -/
+theorem multi_eval_zmod (n : Nat) (hn : 1 < n) (size : Nat) (p a : List Nat) (hp1 : 1 ≤ p.length)
+    (ha1 : 1 ≤ a.length) (h61 : max a.length (p.length - 1) ≤ 2 ^ 60)
+    (hsize : 2 * max a.length (p.length - 1) ≤ 2 ^ Ymq.Checked.bitlen (size - 1)) :
+    ∃ v, multiEval (Ctx.new size) (natOps n) p a = some v ∧ v.length = a.length ∧
+      ∀ j, j < a.length →
+        ((v.getD j 0 : ℕ) : ZMod n) = (poly (p.map fun x => ((x : ℕ) : ZMod n))).eval ((a.getD j 0 : ℕ) : ZMod n) := by
+  haveI : Fact (1 < n) := ⟨hn⟩
+  exact multi_eval_spec (natOps_homE n (by omega)) (Ctx.new size) p a hp1 ha1 h61 (fits_new _ _ hsize)
+    ⟨1, by
+      show Ymq.PolySpec.invMod (1 % n) n = some 1
+      rw [Nat.mod_eq_of_lt hn, invMod_one n hn, Nat.mod_eq_of_lt hn]⟩
+
+example : multiEval (Ctx.new 4) (natOps 101) [1, 2, 3] [0, 1, 2, 3, 4] = some [1, 6, 17, 34, 57] := by decide
+
+/-- **`Poly::roots_eval(a, b)[j] = ∏_i (b_j - a_i)`, branch `|a| < n`** (`n = 2^bitlen(|b| - 1)`, the size
+of the tree over `b`; the ring context is the code's `PolyRing::new(zn, b.len())`): `from_roots(a)`,
+then `_multi_eval` on the tree of `b`, `truncate(b.len())`. No panic site is reached.
+The other branch (`|a| ≥ n`: products of chunks reduced modulo `∏(x - b_j)` with a precomputed
+reversed inverse) is modelled and K/O-compared, not proved. -/
+theorem roots_eval_direct_spec {α R : Type} [CommRing R] [Nontrivial R] {o : Ops α} {φ : α → R}
+    (h : HomE o φ) (a b : List α) (hb1 : 1 ≤ b.length) (ha1 : 1 ≤ a.length)
+    (hb61 : Ymq.Checked.bitlen (b.length - 1) ≤ 61)
+    (hab : a.length < 2 ^ Ymq.Checked.bitlen (b.length - 1)) (hinv : ∃ i, o.inv o.one = some i) :
+    ∃ vals, rootsEval o a b = some vals ∧ vals.length = b.length ∧
+      ∀ j, j < b.length →
+        φ (vals.getD j o.zero) = (a.map fun r => φ (b.getD j o.zero) - φ r).prod :=
+  rootsEval_direct_spec h a b hb1 ha1 hb61 hab hinv
+
+example : rootsEval (natOps 101) [1, 2, 3] [0, 5, 7, 9] = some [95, 24, 19, 33] := by decide
 
 end Trees
 
